@@ -123,7 +123,11 @@ pub(crate) async fn run_link(script: &Script, obs: &mut Vec<String>) {
                             header.destination.value(),
                             header.source.value(),
                             hex(payload.get()),
-                            if phys { format!(" {}", phys_text(addr)) } else { String::new() }
+                            if phys {
+                                format!(" {}", phys_text(addr))
+                            } else {
+                                String::new()
+                            }
                         )),
                         Ok(Err(err)) => {
                             obs.push(format!("err {}", err_text(&err)));
@@ -240,7 +244,11 @@ pub(crate) async fn run_treader(script: &Script, obs: &mut Vec<String>) {
                                 f.info.addr.link.raw_value(),
                                 bcast_text(f.info.broadcast),
                                 hex(f.data),
-                                if phys { format!(" {}", phys_text(f.info.addr.phys)) } else { String::new() }
+                                if phys {
+                                    format!(" {}", phys_text(f.info.addr.phys))
+                                } else {
+                                    String::new()
+                                }
                             )),
                             Some(TransportData::LinkLayerMessage(m)) => obs.push(format!(
                                 "llmsg {} {}",
